@@ -69,6 +69,8 @@ def render(cid: int, style: str, owner: str, params: list[tuple[str | None, str 
     rdoc = [(f"r{i}" if style == "NUMPYDOC" else None, d) for i, (_, d) in enumerate(results) if d]
     if owner == "static_selfnames":
         return f'class K{cid}:\n    @staticmethod\n    def f{cid}({sig}){ret}:\n        """{docstring(style, pdoc, rdoc, "        ")}"""\n        ...\n'
+    if owner == "ext_hint":
+        return f'from collections.abc import Callable\nfrom typing import Any, Literal, Optional, Union\n\n\ndef f{cid}({sig}){ret}:\n    """{docstring(style, pdoc, rdoc, "    ")}"""\n    ...\n'
     if owner in ("function", "function_selfnames"):
         return f'def f{cid}({sig}){ret}:\n    """{docstring(style, pdoc, rdoc, "    ")}"""\n    ...\n'
     if owner == "method":
@@ -101,12 +103,25 @@ def enumerate_cases(tier: str, style: str):
             if tier == "quick" and not (r1[0] == "int" or r2[0] == "int"):
                 continue
             yield "function", [], [r1, r2]
+    for h in EXT_HINTS:
+        yield "ext_hint", [(h, None)], []
     if tier == "thorough":
         for p1, p2 in itertools.product(pairs, repeat=2):
             for r in [(None, None), ("int", "int"), ("int", "str"), (None, "str"), ("str", None)]:
                 yield "function", [p1, p2], ([] if r == (None, None) else [r])
                 if r == (None, None):
                     yield "ctor", [p1, p2], []
+
+
+# hints whose translation is C05's subject; here only: documented WITHOUT a type, they must come out the same under both
+# preferences and never raise a discrepancy warning (only one source gives a type)
+EXT_HINTS = ['Literal["x"]', "Literal[1, 2]", "int | None", "Optional[str]", "dict[str, int]", "Callable[[int], str]", "list[int | None]", "Union[int, str]", "set[str]", "float", "bool", "Any"]
+
+
+def render_default(sp) -> str | None:
+    from ..sds_parser import render_expr
+
+    return render_expr(sp.default) if sp.default else None
 
 
 def lab(owner, params, results) -> str:
@@ -175,6 +190,26 @@ def run(rep: Report, tier: str, seed: int) -> None:
             def viol(clause, feat, detail, opts, c=c, mini=mini) -> None:
                 rep.violation(clause, f"{clause}:{feat}|{style}", {"style": style, "case": c.label, "python": c.src, **detail}, files=mini, src_rel=PKG, opts=opts)
 
+            if owner == "ext_hint":
+                shown = {}
+                for tsp in ("CODE", "DOCSTRING"):
+                    hits = idx[(tsp, "WARN")].find(f"f{c.cid}", "fun")
+                    if len(hits) == 1 and hits[0][2].params:
+                        sp = hits[0][2].params[0]
+                        shown[tsp] = (sp.type.render() if sp.type else None, render_default(sp))
+                hint = params[0][0]
+                if len(shown) == 2 and shown["CODE"] != shown["DOCSTRING"]:
+                    viol("hint-only-same-under-both-preferences", f"ext:{hint}", {"CODE": shown["CODE"], "DOCSTRING": shown["DOCSTRING"]}, Opts(docstyle=style, tsp="DOCSTRING", tsw="WARN"))
+                else:
+                    rep.ok("hint-only-same-under-both-preferences")
+                fid = f"/f{c.cid}'"
+                for tsp in ("CODE", "DOCSTRING"):
+                    n_warn = sum(1 for lvl, msg in obs_by[(tsp, "WARN")].logs if lvl == "WARNING" and msg.startswith("Different type hint and docstring types") and fid in msg)
+                    if n_warn:
+                        viol("warning-count", f"more:ext:{hint}:{tsp}", {"expected_warnings": 0, "logged": n_warn}, Opts(docstyle=style, tsp=tsp, tsw="WARN"))
+                    else:
+                        rep.ok("warning-count")
+                continue
             for tsp in ("CODE", "DOCSTRING"):
                 o = Opts(docstyle=style, tsp=tsp, tsw="WARN")
                 ix = idx[(tsp, "WARN")]
